@@ -122,20 +122,48 @@ fn run_hostile(
     let mut prefix = doc.bytes[..offset].to_vec();
     prefix.extend_from_slice(&intro);
     let header = kind == Kind::Notification || pos == Pos::Root;
+    run_stream(ctx, limits, kind, prefix, offset, header, class, pos.class(), &format!("{:?}", pos), &unit, cap, via, true)
+}
+
+/// One endless stream: `prefix` (the offending element starts at `offset`
+/// inside it) followed by `unit` for ever. `header` says which of the two
+/// limits applies to the offending element.
+#[allow(clippy::too_many_arguments)]
+fn run_stream(
+    ctx: &mut Ctx,
+    limits: (u64, u64),
+    kind: Kind,
+    prefix: Vec<u8>,
+    offset: usize,
+    header: bool,
+    class: &str,
+    posclass: &str,
+    posname: &str,
+    unit: &[u8],
+    cap: usize,
+    via: Via,
+    heap_check: bool,
+) -> Option<HostileResult> {
     let limit = if header { limits.0 } else { limits.1 };
     let lname = if header { "header" } else { "file" };
     let bound = offset as u64 + limit + cap as u64;
-    let stop_at = bound + (limit / 4).max(1 << 20) + 4 * cap as u64;
-    let shown_prefix = String::from_utf8_lossy(&prefix[prefix.len().saturating_sub(300)..]).into_owned();
-    let unit_text = String::from_utf8_lossy(&unit).into_owned();
+    let stop_at = (bound + (limit / 4).max(1 << 20) + 4 * cap as u64).max(prefix.len() as u64 + limit / 2 + (1 << 20));
+    let from = offset.min(prefix.len());
+    let shown_prefix = format!(
+        "{} [...] {}",
+        String::from_utf8_lossy(&prefix[from.saturating_sub(120)..(from + 200).min(prefix.len())]),
+        String::from_utf8_lossy(&prefix[prefix.len().saturating_sub(160)..])
+    );
+    let prefix_len = prefix.len();
+    let unit_text = String::from_utf8_lossy(unit).into_owned();
     let detail = || {
-        json!({"kind": kind.name(), "class": class, "position": format!("{:?}", pos), "offset_of_offending_element": offset,
-               "prefix_tail": shown_prefix, "endless_unit": unit_text, "bufreader_capacity": cap, "limit": limit, "limit_kind": lname,
-               "via": format!("{:?}", via)})
+        json!({"kind": kind.name(), "class": class, "position": posname, "offset_of_offending_element": offset,
+               "prefix_len": prefix_len, "prefix_around_offset_and_tail": shown_prefix, "endless_unit": unit_text,
+               "bufreader_capacity": cap, "limit": limit, "limit_kind": lname, "via": format!("{:?}", via)})
     };
-    ctx.breadcrumb(&format!("hostile {} {} {:?} cap={}", kind.name(), class, pos, cap));
-    let mut counting = CountingRead::new(HostileStream::new(prefix, &unit, stop_at, if ctx.stage == Stage::Miri { 2048 } else { 1 << 16 }));
-    let measure_heap = ctx.stage != Stage::Miri;
+    ctx.breadcrumb(&format!("hostile {} {} {} cap={}", kind.name(), class, posname, cap));
+    let mut counting = CountingRead::new(HostileStream::new(prefix, unit, stop_at, if ctx.stage == Stage::Miri { 2048 } else { 1 << 16 }));
+    let measure_heap = ctx.stage != Stage::Miri && heap_check;
     let (res, peak) = {
         let reader = BufReader::with_capacity(cap, &mut counting);
         let base = if measure_heap { alloc::window_start() } else { 0 };
@@ -151,7 +179,7 @@ fn run_hostile(
     ctx.eval();
     let pulled = counting.pulled;
     let stopped = counting.inner().stopped;
-    ctx.sig(&format!("hostile {} {} pos={} limit={}", kind.name(), class, pos.class(), lname));
+    ctx.sig(&format!("hostile {} {} pos={} limit={}", kind.name(), class, posclass, lname));
     let res = res?;
     let ran_to_limit = pulled > offset as u64 + limit;
     ctx.obs(&format!("hostile_streams_{}_limit", lname), 1);
@@ -161,14 +189,16 @@ fn run_hostile(
     } else {
         ctx.obs("hostile_rejected_before_limit", 1);
     }
-    ctx.obs_max(&format!("hostile_peak_heap_{}_limit", lname), peak);
+    if measure_heap {
+        ctx.obs_max(&format!("hostile_peak_heap_{}_limit", lname), peak);
+    }
     match &res {
         Ok(_) => ctx.obs("hostile_returned_value", 1),
         Err((c, _)) => ctx.obs(&format!("hostile_{}", c), 1),
     }
     if pulled > bound || stopped {
         ctx.violation(
-            &format!("C09:overread:{}:{}:{}", kind.name(), class, pos.class()),
+            &format!("C09:overread:{}:{}:{}", kind.name(), class, posclass),
             &format!(
                 "parser pulled {} bytes from the reader; offending element starts at {}, {} limit {} + buffer {} allow {}{}",
                 pulled,
@@ -184,7 +214,7 @@ fn run_hostile(
     }
     if measure_heap && peak > 4 * (limit + cap as u64) + (4 << 20) {
         ctx.violation(
-            &format!("C09:heap:{}:{}:{}", kind.name(), class, pos.class()),
+            &format!("C09:heap:{}:{}:{}", kind.name(), class, posclass),
             &format!("peak heap {} bytes while parsing exceeds 4 x ({} limit {} + buffer)", peak, lname, limit),
             detail(),
         );
@@ -195,11 +225,184 @@ fn run_hostile(
             Err((c, m)) => format!("{}: {}", c, m),
         };
         ctx.sample(&format!("hostile-{}", lname), || {
-            json!({"kind": kind.name(), "class": class, "position": format!("{:?}", pos), "offset": offset, "capacity": cap,
+            json!({"kind": kind.name(), "class": class, "position": posname, "offset": offset, "capacity": cap,
                    "limit": limit, "pulled": pulled, "allowed": bound, "peak_heap": peak, "result": r})
         });
     }
     Some(HostileResult { pulled, bound, ran_to_limit })
+}
+
+//------------ two hostile regions in one element -----------------------------
+
+/// Streams in which the offending element first spends a good part of its
+/// budget on something legal but large (white space or a comment in front of
+/// it, white space inside its start tag, a very long attribute value) and
+/// only then never ends. The bound is the same as for every other stream —
+/// one limit plus one buffer beyond the start of the element — so an
+/// implementation that starts counting afresh somewhere inside the element
+/// reads `first region + limit` and is seen.
+const COMPOUND: &[(&str, Kind, bool)] = &[
+    // (class, kind, header limit applies)
+    ("long-uri-then-text", Kind::Snapshot, false),
+    ("ws-in-tag-then-text", Kind::Delta, false),
+    ("ws-before-then-text", Kind::Snapshot, false),
+    ("comment-before-then-text", Kind::Delta, false),
+    ("long-attr-then-attr-value", Kind::Delta, false),
+    ("text-then-ws-after-element", Kind::Snapshot, false),
+    ("long-attr-then-attr-value", Kind::Notification, true),
+    ("ws-before-then-attr-name", Kind::Notification, true),
+    ("comment-before-then-ws-in-tag", Kind::Notification, true),
+    ("long-attr-then-attr-value@root", Kind::Snapshot, true),
+    ("ws-before-then-attr-value@root", Kind::Delta, true),
+];
+
+fn compound_parts(class: &str, kind: Kind, first: usize) -> (Vec<u8>, Vec<u8>) {
+    let hash = "00".repeat(32);
+    let fill = |b: &str, n: usize| b.repeat(n / b.len() + 1);
+    let root_open = format!("<{} xmlns=\"{}\" version=\"1\"", kind.name(), g::NS);
+    let (intro, unit): (String, &str) = match class {
+        "long-uri-then-text" => (format!("<publish uri=\"rsync://h.example/m/{}\">", fill("a", first)), "QUJD"),
+        "ws-in-tag-then-text" => (format!("<publish{} uri=\"rsync://h.example/m/x\">", fill(" \n", first)), "QUJD"),
+        "ws-before-then-text" => (format!("{}<publish uri=\"rsync://h.example/m/x\">", fill(" \n\t", first)), "QUJDQUJD\n"),
+        "comment-before-then-text" => (format!("<!--{}--><publish uri=\"rsync://h.example/m/x\">", fill("c ", first)), "QUJD"),
+        "long-attr-then-attr-value" if kind == Kind::Notification => {
+            (format!("<delta serial=\"5\" hash=\"{}\" uri=\"https://h.example/{}\" uri=\"https://h.example/", hash, fill("a", first)), "a")
+        }
+        "long-attr-then-attr-value" => {
+            (format!("<withdraw uri=\"rsync://h.example/m/{}\" hash=\"", fill("a", first)), "0")
+        }
+        "text-then-ws-after-element" => (format!("<publish uri=\"rsync://h.example/m/x\">{}</publish", fill("QUJD", first)), " \n"),
+        "ws-before-then-attr-name" => (format!("{}<delta serial=\"5\" ", fill(" \n", first)), "a"),
+        "comment-before-then-ws-in-tag" => (format!("<!--{}--><delta serial=\"5\" ", fill("c ", first)), " \n"),
+        "long-attr-then-attr-value@root" => {
+            (format!("{} session_id=\"{}\" serial=\"", root_open, fill("a", first)), "1")
+        }
+        "ws-before-then-attr-value@root" => (format!("{}{} session_id=\"", fill(" \n", first), root_open), "a"),
+        _ => panic!("unknown compound class {}", class),
+    };
+    (intro.into_bytes(), unit.as_bytes().to_vec())
+}
+
+pub fn compound(ctx: &mut Ctx, limits: (u64, u64)) {
+    if ctx.stage == Stage::Miri {
+        return;
+    }
+    let mut rng = ctx.rng("hostile-compound");
+    let mut cases = 0u64;
+    let fractions: &[(u64, u64)] = if ctx.tier == Tier::Thorough && ctx.stage == Stage::Native { &[(1, 4), (1, 2), (9, 10)] } else { &[(1, 4)] };
+    let mut index = 0u64;
+    for (class, kind, header) in COMPOUND {
+        for (num, den) in fractions {
+            let (doc, n) = prefix_model(*kind, &mut rng);
+            let cap = *rng.pick(&[1024usize, 8192, 65_536]);
+            let via = if rng.bool() { Via::Owned } else { Via::Alt };
+            let at_root = class.ends_with("@root");
+            let pos = if at_root { Pos::Root } else { Pos::Child(rng.below(n as u64 + 1) as usize) };
+            // file-limit streams cost about 100 MB of scanning each: spread them over the shards
+            let slot = index;
+            index += 1;
+            if slot % ctx.nshards.max(1) != ctx.shard {
+                continue;
+            }
+            if ctx.stage == Stage::Asan && !*header {
+                continue;
+            }
+            let limit = if *header { limits.0 } else { limits.1 };
+            let first = (limit * num / den) as usize;
+            if first <= 4 * cap {
+                continue;
+            }
+            let offset = offset_of(&doc, pos);
+            let (intro, unit) = compound_parts(class, *kind, first);
+            let mut prefix = doc.bytes[..offset].to_vec();
+            prefix.extend_from_slice(&intro);
+            let posclass = if at_root { "root" } else { "compound" };
+            let name = format!("{:?} first-region={}/{} of the limit", pos, num, den);
+            if let Some(r) = run_stream(ctx, limits, *kind, prefix, offset, *header, class, posclass, &name, &unit, cap, via, true) {
+                if r.ran_to_limit {
+                    ctx.obs("hostile_compound_stopped_only_by_limit", 1);
+                }
+            }
+            cases += 1;
+        }
+    }
+    ctx.obs("hostile_compound_cases", cases);
+}
+
+//------------ endless element after a long valid document ------------------------
+
+/// A valid document that is itself longer than the file limit (every single
+/// element within its own limit), then an element that never ends. The
+/// bound for the offending element does not depend on what came before it.
+pub fn after_long_valid_prefix(ctx: &mut Ctx, limits: (u64, u64)) {
+    if ctx.stage != Stage::Native {
+        return;
+    }
+    let kinds: &[Kind] = if ctx.tier == Tier::Thorough { &[Kind::Notification, Kind::Snapshot, Kind::Delta] } else { &[Kind::Notification, Kind::Snapshot] };
+    let totals: &[(u64, u64)] = if ctx.tier == Tier::Thorough { &[(101, 100), (2, 1)] } else { &[(101, 100)] };
+    let mut index = 0u64;
+    let mut cases = 0u64;
+    for kind in kinds {
+        for (num, den) in totals {
+            // the last shards: the first ones carry the 100 MB streams of `hostile`
+            let slot = index;
+            index += 1;
+            if (ctx.nshards - 1 - slot % ctx.nshards.max(1)) != ctx.shard {
+                continue;
+            }
+            let total = (limits.1 * num / den) as usize;
+            if total > (1 << 30) {
+                ctx.notes.push("C09: configured file limit above 1 GiB, long-valid-prefix streams skipped".into());
+                return;
+            }
+            let uuid = g::uuid_text(&[5u8; 16]);
+            let hash = "ab".repeat(32);
+            let mut p = format!("<{} xmlns=\"{}\" version=\"1\" session_id=\"{}\" serial=\"7\">", kind.name(), g::NS, uuid).into_bytes();
+            let mut elements = 0u64;
+            let (header, class, unit): (bool, &str, &[u8]) = match kind {
+                Kind::Notification => {
+                    p.extend_from_slice(format!("<snapshot uri=\"https://h.example/s.xml\" hash=\"{}\"/>", hash).as_bytes());
+                    // large entries (each within the header limit) up to just below the total, then ordinary ones
+                    let big = ((limits.0 as usize) * 9 / 10).max(64);
+                    let pad = "p".repeat(big);
+                    let mut serial = 1u64;
+                    while p.len() + big + 200 < total.saturating_sub(400_000) {
+                        p.extend_from_slice(format!("<delta serial=\"{}\" uri=\"https://h.example/{}/d.xml\" hash=\"{}\"/>", serial, pad, hash).as_bytes());
+                        serial += 1;
+                        elements += 1;
+                    }
+                    while p.len() < total + 200_000 {
+                        p.extend_from_slice(format!("<delta serial=\"{}\" uri=\"https://h.example/{}/d.xml\" hash=\"{}\"/>\n", serial, serial, hash).as_bytes());
+                        serial += 1;
+                        elements += 1;
+                    }
+                    (true, "attr-value-after-long-valid-prefix", b"a")
+                }
+                _ => {
+                    let big = ((limits.1 as usize) * 2 / 5).max(64) / 4 * 4;
+                    let text = "QUJD".repeat(big / 4);
+                    while p.len() < total {
+                        p.extend_from_slice(format!("<publish uri=\"rsync://h.example/m/o{}\">", elements).as_bytes());
+                        p.extend_from_slice(text.as_bytes());
+                        p.extend_from_slice(b"</publish>\n");
+                        elements += 1;
+                    }
+                    (false, "text-after-long-valid-prefix", b"QUJD")
+                }
+            };
+            let offset = p.len();
+            match kind {
+                Kind::Notification => p.extend_from_slice(format!("<delta serial=\"0\" hash=\"{}\" uri=\"https://h.example/", hash).as_bytes()),
+                _ => p.extend_from_slice(b"<publish uri=\"rsync://h.example/m/last\">"),
+            }
+            ctx.obs_max("hostile_longest_valid_prefix_octets", offset as u64);
+            ctx.obs("hostile_valid_prefix_elements", elements);
+            let name = format!("after {} valid elements ({} octets = {}/{} of the file limit)", elements, offset, num, den);
+            run_stream(ctx, limits, *kind, p, offset, header, class, "after-long-valid-prefix", &name, unit, 65_536, Via::Alt, false);
+            cases += 1;
+        }
+    }
+    ctx.obs("hostile_after_long_valid_prefix_cases", cases);
 }
 
 /// Classes that are worth 100 MB each in the quick tier.
